@@ -249,4 +249,27 @@ CHECKS = {
         "quick": [T("TestC07", 8, 60, steps=30)],
         "thorough": [T("TestC07", 16, 3000, steps=30, timeout=3000)],
     },
+    "C03": {
+        "level": "exploration",
+        "crash_is_violation": True,
+        "rule": ("rapid on a real node with a proof world built from ordinary transactions (audit on/off, proof type serial/"
+                 "parallel): chainH bound to the always-true rule, chainW bound to a harness-deployed WASM rule (verdict 1 iff the "
+                 "first proof byte is '1', trap iff '!', plain false otherwise), chainU whose master rule was changed from the "
+                 "always-true rule to that WASM rule by governance, chainL logged out, a never registered chain, and a remote "
+                 "BitXHub 1357 with 4 registered validators. Generated per block (1-4 blocks, <=5 IBTPs on distinct pairs): requests "
+                 "with proof classes valid, nil, empty, hash-mismatch, rule-false, rule-trap, 60 kB; inter-hub requests whose "
+                 "BxhProof multi-signature is two/three distinct validators, a single one, one validator repeated, foreign keys, "
+                 "garbage, signatures over another status or index, proof-hash mismatch; plain invocations by outsiders of "
+                 "HandleIBTPData, HandleIBTP, ProcessIBTP, InitServiceCache and the broker's InvokeInterchain/InvokeReceipt/"
+                 "EmitInterchain. Oracle: validity predicate computed by the harness (sha256(proof)==ibtp.Proof, own rule "
+                 "semantics, own keccak digest and count of distinct registered validators > (n-1)/3); not valid or direct => "
+                 "FAILED receipt, counters of the claimed pair unchanged, no transaction record, no delivery entry, and for blocks "
+                 "without any valid IBTP the raw dump differs only in sender/admin accounts; valid + next index + available "
+                 "services => accepted; node alive (journal + crash = violation). Non-trivial = hash-correct but rule-rejected "
+                 "proof, repeated validator, or a non-IBTP entry point; distinct = set of (entry, proof class) labels of the case."),
+        "assumptions": ["rule-changing governance happens in the prelude, never in the same block as an IBTP of that chain",
+                        "receipts (verified against the destination chain's rule) use the same code path; only requests are generated here"],
+        "quick": [T("TestC03", 8, 150, steps=30)],
+        "thorough": [T("TestC03", 16, 5000, steps=30, timeout=3000)],
+    },
 }
